@@ -121,6 +121,31 @@ theorem a2c_loss_hasDerivAt_entropy (c : PGConfig ℝ) (S : List (PGSample ℝ))
   simp only [entropyCot, List.getElem_map, zero_real, one_real, ofNat_real]
   simp
 
+/-! ### distributions without an analytic entropy (`hasEntropy = false`: `evaluate_actions` returned `entropy = None`,
+e.g. gSDE with the tanh bijector): the objective uses the Monte-Carlo estimate `-mean (log π_θ(a|s))` of the CURRENT
+policy, so the entropy term is a function of `logp` and contributes `+ent_coef/B` to its cotangent -/
+
+/-- The cotangent w.r.t. `logp_j` the driver returns, spelled out: the surrogate's `-(surrGrad)/B`, plus
+`ent_coef/B` exactly when the entropy is estimated from the log-probabilities (PPO), `-(A_j)/B` plus the same (A2C). -/
+theorem cot_logp_entropy_estimate (c : PGConfig ℝ) (S : List (PGSample ℝ)) (j : ℕ) (hj : j < S.length) :
+    (ppoCotLogp c S)[j]'(by simpa using hj) =
+      -(surrGrad c.clip S[j].adv S[j].oldLogp S[j].logp / (S.length : ℝ))
+        + (if c.hasEntropy then 0 else c.entCoef / (S.length : ℝ))
+    ∧ (a2cCotLogp c S)[j]'(by simpa using hj) =
+      -(S[j].adv / (S.length : ℝ)) + (if c.hasEntropy then 0 else c.entCoef / (S.length : ℝ)) := by
+  constructor <;>
+  · simp only [ppoCotLogp, a2cCotLogp, entLogpCot, List.getElem_map, zero_real, one_real, ofNat_real]
+    split_ifs <;> simp [div_eq_mul_inv]
+
+/-- **Entropy estimated from `logp`.**  With `hasEntropy = false` the entropy term `ent_coef * (-mean (-logp))` alone has
+derivative `ent_coef/B` in `logp_j` (it would be `0` if the constant `old_log_prob` were used instead), and raising
+`logp_j` — lowering the estimated entropy — raises that term when `ent_coef > 0`. -/
+theorem entropy_estimate_term_hasDerivAt (ec : ℝ) (S : List (PGSample ℝ)) (j : ℕ) (hj : j < S.length) :
+    HasDerivAt (fun x => ec * entropyLoss false (S.set j { S[j] with logp := x })) (ec / (S.length : ℝ)) S[j].logp := by
+  have h := (entropyLoss_hasDerivAt_logp S j hj false).const_mul ec
+  refine hasDerivAt_of_eq h (fun _ => rfl) ?_
+  simp [div_eq_mul_inv]
+
 /-! ### the loss is affine in the coefficients; the entropy bonus has the right sign -/
 
 theorem loss_linear_in_coefs (c : PGConfig ℝ) (S : List (PGSample ℝ)) :
